@@ -372,10 +372,13 @@ class NDNApp:
             'raw_packet': raw_packet,
             'deadline': deadline,
         }
+        # The cut-off for replies is kept on the loop's clock: a step of the system clock neither shortens nor
+        # prolongs the lifetime of the Interest (context['deadline'] stays a timestamp, for the application)
+        loop = aio.get_running_loop()
+        loop_deadline = loop.time() + (param.lifetime if param.lifetime is not None else DEFAULT_LIFETIME) / 1000.0
 
         def reply(data: enc.BinaryStr) -> bool:
-            now = utils.timestamp()
-            if now > deadline:
+            if loop.time() > loop_deadline:
                 self.logger.warning('Deadline passed, unable to reply to %s', enc.Name.to_str(name))
                 return False
             if pit_token is None:
